@@ -5,7 +5,9 @@
    segmentation scenario replays the SAME client/upstream byte streams under different segmentations, one per run.
    Event records (props/C27.py; message contents are read with the reference decoder lib/vf/dnsref.py):
      [k |-> "run", r |-> 1.., cls |-> stream class (signature only)]
-     [k |-> "query", id, q, rd, op]          the client puts a query on the connection (q: question section label)
+     [k |-> "query", id, q, rd, op]          the client puts a query on the connection; q = <<name, spelling, kind>> is the
+                                             question section: name class, letter-case spelling of it (compared
+                                             EXACTLY: "same question section"), kind "ascii" | "idn" (signature only)
      [k |-> "reply", id, q]                  the upstream puts a reply on its connection
      [k |-> "deliver", side, malformed]      TCP: a segment is handed to the layer; malformed = the bytes delivered so
                                              far on that side contain a zero length prefix at a frame boundary
@@ -34,10 +36,13 @@ MonInit == [bad |-> <<>>, wit |-> {}, run |-> 0, cls |-> "",
             ext1 |-> NoExt,       \* ... in run 1
             cmp1 |-> FALSE,       \* run 1 ran to completion
             reported |-> {},      \* ids of queries the layer has already reported in a hook (it HAS seen the query)
-            replied |-> {}]       \* ids the upstream has replied to in this run
+            replied |-> {},       \* ids the upstream has replied to in this run
+            upsent |-> {}]        \* <<id, q>> of the replies the upstream sent in this run
 
 SentIds(m) == { s[1] : s \in m.sent }
 Has(m, id, q) == \E s \in m.sent : s[1] = id /\ s[2] = q
+\* the same name, in whatever letter case
+HasFold(m, id, q) == \E s \in m.sent : s[1] = id /\ s[2][1] = q[1]
 
 HookBad(m, ev) ==
   IF ~ev.has_req
@@ -45,21 +50,30 @@ HookBad(m, ev) ==
            IF ev.pid \notin SentIds(m) THEN "id_unknown"              \* nobody asked
            ELSE IF ev.pid \in m.reported THEN "id_query_reported"    \* the layer had the query and lost it again
            ELSE "id_query_pending">>                                  \* query sent, but not yet processed by the layer
-  ELSE IF ~Has(m, ev.rid, ev.rq) THEN <<"C27.hook_query_not_from_client", ev.name>>
+  ELSE IF ~HasFold(m, ev.rid, ev.rq) THEN <<"C27.hook_query_not_from_client", ev.name>>   \* "carries the query": by name
   ELSE <<>>
 
 ToClientBad(m, ev) ==
   IF ev.origin = "synth" THEN
        IF ev.qr # 1 \/ ev.rcode # 2 THEN <<"C27.servfail_not_faithful", "rcode">>
        ELSE IF ev.id \notin SentIds(m) THEN <<"C27.servfail_not_faithful", "id">>
-       ELSE IF ~Has(m, ev.id, ev.q) THEN <<"C27.servfail_not_faithful", "question">>
-       ELSE IF ~\E s \in m.sent : s[1] = ev.id /\ s[2] = ev.q /\ s[4] = ev.op THEN <<"C27.servfail_not_faithful", "opcode">>
-       ELSE IF ~\E s \in m.sent : s = <<ev.id, ev.q, ev.rd, ev.op>> THEN <<"C27.servfail_not_faithful", "rd">>
+       ELSE IF ~HasFold(m, ev.id, ev.q) THEN <<"C27.servfail_not_faithful", "question">>
+       \* opcode and RD are looked up among the queries for this id and NAME; the exact spelling is judged last, so that
+       \* a re-spelled name is reported as such even when another query happens to use the new spelling
+       ELSE IF ~\E s \in m.sent : s[1] = ev.id /\ s[2][1] = ev.q[1] /\ s[4] = ev.op
+            THEN <<"C27.servfail_not_faithful", "opcode">>
+       ELSE IF ~\E s \in m.sent : s[1] = ev.id /\ s[2][1] = ev.q[1] /\ s[4] = ev.op /\ s[3] = ev.rd
+            THEN <<"C27.servfail_not_faithful", "rd">>
+       ELSE IF ~\E s \in m.sent : s = <<ev.id, ev.q, ev.rd, ev.op>>
+            THEN <<"C27.servfail_not_faithful", "question_case", ev.q[3]>>
        ELSE <<>>
-  ELSE IF ~Has(m, ev.id, ev.q)
-       THEN <<"C27.reply_without_matching_query", ev.origin,
-              IF ev.id \in SentIds(m) THEN "question_differs" ELSE "id_unknown">>
-  ELSE <<>>
+  ELSE IF Has(m, ev.id, ev.q) THEN <<>>
+  ELSE IF HasFold(m, ev.id, ev.q)     \* right name, other letter case: not the question section the client sent
+       THEN <<"C27.reply_question_case_differs", ev.origin,
+              IF ev.origin = "upstream" /\ <<ev.id, ev.q>> \in m.upsent THEN "as_upstream_sent" ELSE "changed_by_proxy",
+              ev.q[3]>>
+  ELSE <<"C27.reply_without_matching_query", ev.origin,
+         IF ev.id \in SentIds(m) THEN "question_differs" ELSE "id_unknown">>
 
 RunEndBad(m, ev) ==
   IF ev.quiescent /\ m.mustclose # "" THEN <<"C27.malformed_prefix_not_closed", m.mustclose>>
@@ -77,11 +91,13 @@ Clause(m, ev) ==
 MonStep(m, ev) ==
   LET m1 == [m EXCEPT !.bad = IF @ # <<>> THEN @ ELSE Clause(m, ev)] IN
   CASE ev.k = "run" -> [m1 EXCEPT !.run = ev.r, !.cls = ev.cls, !.sent = {}, !.mustclose = "", !.ext = NoExt,
-                                  !.reported = {}, !.replied = {},
+                                  !.reported = {}, !.replied = {}, !.upsent = {},
                                   !.wit = @ \cup (IF ev.r > 1 THEN {"second_segmentation"} ELSE {})]
     [] ev.k = "query" -> [m1 EXCEPT !.sent = @ \cup {<<ev.id, ev.q, ev.rd, ev.op>>},
-                                    !.wit = @ \cup (IF ev.id \in SentIds(m) THEN {"id_reused"} ELSE {})]
-    [] ev.k = "reply" -> [m1 EXCEPT !.replied = @ \cup {ev.id},
+                                    !.wit = @ \cup (IF ev.id \in SentIds(m) THEN {"id_reused"} ELSE {})
+                                              \cup (IF \E s \in m.sent : s[2][1] = ev.q[1] /\ s[2] # ev.q
+                                                    THEN {"query_respelled"} ELSE {})]
+    [] ev.k = "reply" -> [m1 EXCEPT !.replied = @ \cup {ev.id}, !.upsent = @ \cup {<<ev.id, ev.q>>},
                                     !.wit = @ \cup (IF ev.id \notin SentIds(m) THEN {"unsolicited_reply"}
                                                       ELSE IF ~Has(m, ev.id, ev.q) THEN {"reply_other_question"}
                                                       ELSE {"matching_reply"})
@@ -98,7 +114,9 @@ MonStep(m, ev) ==
                             ELSE @,
                     !.reported = IF ev.has_req THEN @ \cup {ev.rid} ELSE @,
                     !.wit = @ \cup {ev.name}]
-    [] ev.k = "to_client" -> [m1 EXCEPT !.wit = @ \cup {"to_client_" \o ev.origin}]
+    [] ev.k = "to_client" -> [m1 EXCEPT !.wit = @ \cup {"to_client_" \o ev.origin}
+                                                  \cup (IF \E s \in m.sent : s[2][1] = ev.q[1] /\ s[2] # ev.q
+                                                        THEN {"reply_for_respelled_name_" \o ev.origin} ELSE {})]
     [] ev.k = "run_end" -> [m1 EXCEPT !.ext1 = IF m.run = 1 THEN m.ext ELSE @, !.cmp1 = IF m.run = 1 THEN ev.complete ELSE @,
                                       !.wit = @ \cup (IF m.run > 1 /\ ev.complete /\ m.cmp1 /\ Len(m.ext.client) > 1 THEN {"compared_multi_message_stream"} ELSE {})]
     [] OTHER -> m1
